@@ -128,6 +128,10 @@ JOBS['C01'] = [
     e2e('e2e_u8_n4_e1_r1_pAAAA', 'uint8_t', 4, 1, 1, timeout=1800, extra=dict(PATTERN=7)),
     e2e('e2e_i8_n5_e1_r0_pAAAAB', 'int8_t', 5, 1, 0, tiers=T, timeout=4000, extra=dict(PATTERN=7), mem_gb=30),
     e2e('e2e_i8_n4_e1_r0', 'int8_t', 4, 1, 0, tiers=T, timeout=4000, mem_gb=30),
+    e2e('e2e_u8_n2_e1_r1_dbl', 'uint8_t', 2, 1, 1, flt='double', tiers=T, timeout=3000),
+    e2e('e2e_u16_n2_e1_r1', 'uint16_t', 2, 1, 1, tiers=T, timeout=3000, narrow=32, mem_gb=30),
+    e2e('e2e_i16_n3_e1_r0_top', 'int16_t', 3, 1, 0, tiers=T, timeout=4000, narrow=16, mem_gb=30, extra=dict(ORD_LO=65300)),
+    e2e('e2e_u32_n2_e1_r1_top', 'uint32_t', 2, 1, 1, tiers=T, timeout=3000, narrow=16, mem_gb=30, extra=dict(ORD_LO=4294967000)),
     e2e('e2e_u8_n5_e1_r0_k31', 'uint8_t', 5, 1, 0, tiers=T, timeout=5000, extra=dict(ORD_HI=31), narrow=8, mem_gb=40),
 ]
 JOBS['C03'] = [pla('pla_fit_k3_e0', 3, epsfix=0, maximality=False),
